@@ -512,6 +512,8 @@ func runArrayProgram(e *arrEnv, nOps, sizeProf, posProf, opProf int) {
 			}
 			// C09: one live array, everything handed back has been disposed of: exactly its slabs remain
 			e.health()
+			// C18: elements whose large-value slab is absent are reported, not dereferenced (dangling.go)
+			e.danglingProbe()
 			e.st.Ops += 0
 		}
 	}
